@@ -404,6 +404,9 @@ PAIRS = {
     "set-private-label-vs-find": (("label", "k1"), ("find",)),
     "destroy-vs-destroy": (("destroy", "o1"), ("destroy", "o1")),
     "set-label-vs-get": (("label", "o1"), ("get", "o1")),
+    "set-label-vs-set-label-different-objects": (("label", "o1"), ("label", "o2")),
+    "destroy-vs-find": (("destroy", "o1"), ("find",)),
+    "set-private-label-vs-destroy-other-object": (("label", "k1"), ("destroy", "o2")),
     # the second process never logs in (public session): it must see committed PUBLIC objects all the same
     "create-vs-find-by-process-not-logged-in": (("create",), ("find",), {"public": (1,)}),
     "create-vs-set-label-other-object-by-process-not-logged-in": (("create",), ("label", "o2"), {"public": (1,)}),
